@@ -195,12 +195,12 @@ def batches(rng, tier):
     for t in "sil":
         for a in range(-8, 9):
             for b in range(a, 9):
-                combos = [(e, d) for e in ENGINES for d in ("p", "s")] if thorough else [(ENGINES[k % 2], DECOS[(k // 2) % 3])]
+                combos = [(e, d) for e in ENGINES for d in DECOS] if thorough else [(e, DECOS[(k // 2) % 3]) for e in ENGINES]
                 for eng, deco in combos:
                     specs.append(Spec("I", t=t, deco=deco, eng=eng, seed=seed_for(r), ctor=CTORS[k % 5], segs=[("new", a, b, 400)]))
                     k += 1
     yield Batch("int-small-intervals", materialise(specs), exhaustive=True,
-                note="every interval -8<=a<=b<=8 x short/int/long" + (" x both engines x plain/strong" if thorough else ", engine/decoration/ctor rotating") + ", 400 draws")
+                note="every interval -8<=a<=b<=8 x short/int/long" + (" x both engines x plain/strong/nested strong" if thorough else " x both engines, decoration/ctor rotating") + ", 400 draws")
 
     # 2. intervals touching the type limits
     r = rng.fork("limits")
@@ -277,6 +277,16 @@ def batches(rng, tier):
             segs.append((act, cur[0], cur[1], r.range(0, 30)))
         specs.append(Spec("I", t="i", deco=f"e{n}", eng=r.choice(ENGINES), seed=seed_for(r), ctor=ctor, segs=segs))
     yield Batch("int-histories", materialise(specs), note="1-5 segments: new variate/distribution on the same generator, param(p), reset(); small, wide and limit intervals")
+
+    # 5b. a large sample of seeds on short runs
+    r = rng.fork("seeds")
+    specs = []
+    for k in range(20000 if thorough else 2500):
+        t = "sil"[k % 3]
+        a, b = interval(r, t, wide=(k % 4 == 0))
+        specs.append(Spec("I", t=t, deco=DECOS[(k // 3) % 3], eng=ENGINES[(k // 9) % 2], seed=(r.next() if k % 2 else r.below(1 << 32)),
+                          ctor=CTORS[k % 5], segs=[("new", a, b, 12)]))
+    yield Batch("int-many-seeds", materialise(specs), note="one fresh random seed (32 or 64 bit) per op, 12 draws, mostly intervals within [-8,8]")
 
     # 6. floating point: uniform_real, normal
     r = rng.fork("real")
@@ -368,16 +378,50 @@ def weight(op):
     return max(1, sum(_draws(x) for x in t[1:] if ":" in x))
 
 
+def _cuts(n):
+    out, k = [0, 1, 2, 3], 4
+    while k < n:
+        out += [k, k + k // 2]
+        k *= 2
+    return sorted({c for c in out if c < n})
+
+
+def _tape_prefix(tape, k):
+    return ",".join(tape.split(",")[:k]) if k > 0 else "-"
+
+
 def refine(op):
-    """shorten a failing multi-segment op: try each single segment that is a `new` on its own (the generator
-    then restarts at the seed, so this is only valid for the *first* segment) -> only cut trailing segments"""
+    """Shorten a failing op: first cut trailing segments (every prefix of the segment list is a valid op, the
+    generator restarts from the same seed), then cut the number of draws of a single segment (a prefix of the
+    recorded std output is the std output of the shorter run)."""
     t = op.split()
-    if t[0] not in ("I", "R", "X"):
-        return None
-    first = next(i for i, x in enumerate(t) if ":" in x)
-    if len(t) - first <= 1:
-        return None
-    return [" ".join(t[:k]) for k in range(first + 1, len(t))]
+    kind = t[0]
+    if kind in ("I", "R", "X"):
+        first = next((i for i, x in enumerate(t) if ":" in x), None)
+        if first is None:
+            return None
+        if len(t) - first > 1:
+            return [" ".join(t[:k]) for k in range(first + 1, len(t))]
+        f = t[-1].split(":")
+        if len(f) < 4 or not f[3].isdigit():
+            return None
+        n = int(f[3])
+        if kind == "X":
+            return [" ".join(t[:-1] + [":".join(f[:3] + [str(k)])]) for k in _cuts(n)] or None
+        return [" ".join(t[:-1] + [":".join(f[:3] + [str(k), _tape_prefix(f[4], k)])]) for k in _cuts(n)] or None
+    if kind in ("EN", "C"):
+        f = t[-1].split(":")
+        if len(f) != 2 or not f[0].isdigit() or f[1] == "-":
+            return None
+        return [" ".join(t[:-1] + [f"{k}:{_tape_prefix(f[1], k)}"]) for k in _cuts(int(f[0]))] or None
+    if kind == "G":
+        f = t[-1].split(":")
+        if len(f) != 4 or not f[0].isdigit() or f[3] == "-":
+            return None
+        return [" ".join(t[:-1] + [f"{k}:{f[1]}:{f[2]}:{_tape_prefix(f[3], k)}"]) for k in _cuts(int(f[0]))] or None
+    if kind in ("XE", "XC"):
+        return [" ".join(t[:-1] + [str(k)]) for k in _cuts(int(t[-1]))] if t[-1].isdigit() else None
+    return None
 
 
 MANIFEST = {
